@@ -150,6 +150,7 @@ type built struct {
 	validOK  bool
 	validErr string
 	reader   string // entry point used to parse the serialisation back
+	val      any    // the constructed value itself (query stability: all read-only methods twice, then serialised again)
 	typ      int
 }
 
@@ -163,6 +164,9 @@ func (b built) res(extra map[string]any) Res {
 			same := o.OK && o.SerOK && string(o.Ser) == string(b.ser)
 			r["rt"] = map[string]any{"done": true, "ok": o.OK, "remlen": len(o.Rem), "same": same, "err": o.Err, "reader": b.reader}
 		}
+	}
+	if b.ok && b.serOK && b.val != nil {
+		queryStability(ReadOut{OK: true, SerOK: true, Val: b.val, Ser: b.ser}, r)
 	}
 	for k, v := range extra {
 		r[k] = v
@@ -178,7 +182,7 @@ func init() {
 			c, err := certificate.NewCertificateWithType(uint8(m.Int("type")), m.Bytes("payload"))
 			b := built{ok: err == nil && c != nil, err: errStr(err), reader: "ReadCertificate"}
 			if b.ok {
-				b.ser, b.serOK = c.Bytes(), true
+				b.ser, b.serOK, b.val = c.Bytes(), true, c
 			}
 			return b.res(nil)
 		case "CertificateBuilder":
@@ -204,7 +208,7 @@ func init() {
 			}
 			b := built{ok: err == nil && c != nil, err: errStr(err), reader: "ReadCertificate", hasValid: true, validOK: verr == nil, validErr: errStr(verr)}
 			if b.ok {
-				b.ser, b.serOK = c.Bytes(), true
+				b.ser, b.serOK, b.val = c.Bytes(), true, c
 			}
 			return b.res(nil)
 		case "BuildKeyTypePayload":
@@ -231,7 +235,7 @@ func init() {
 			b := built{ok: err == nil && k != nil, err: errStr(err), reader: "NewKeyCertificate"}
 			extra := map[string]any{}
 			if b.ok {
-				b.ser, b.serOK = k.Certificate.Bytes(), true
+				b.ser, b.serOK, b.val = k.Certificate.Bytes(), true, k
 				extra["acc"] = accKeyCert(k)
 			}
 			return b.res(extra)
@@ -243,6 +247,7 @@ func init() {
 				verr := k.Validate()
 				b.hasValid, b.validOK, b.validErr = true, verr == nil, errStr(verr)
 				ser, serr := k.Bytes()
+				b.val = k
 				b.ser, b.serOK = ser, serr == nil
 				extra["acc"] = accKAC(k)
 			}
@@ -255,6 +260,7 @@ func init() {
 				verr := d.Validate()
 				b.hasValid, b.validOK, b.validErr = true, verr == nil, errStr(verr)
 				ser, serr := d.Bytes()
+				b.val = d
 				b.ser, b.serOK = ser, serr == nil
 				extra["acc"] = accDest(d)
 			}
@@ -282,6 +288,7 @@ func init() {
 				verr := ri.Validate()
 				b.hasValid, b.validOK, b.validErr = true, verr == nil, errStr(verr)
 				ser, serr := ri.KeysAndCert.Bytes()
+				b.val = ri
 				b.ser, b.serOK = ser, serr == nil
 				d := ri.AsDestination()
 				extra["acc"] = accDest(&d)
@@ -300,6 +307,7 @@ func init() {
 				verr := ri.Validate()
 				b.hasValid, b.validOK, b.validErr = true, verr == nil, errStr(verr)
 				ser, serr := ri.KeysAndCert.Bytes()
+				b.val = ri
 				b.ser, b.serOK = ser, serr == nil
 				d := ri.AsDestination()
 				extra["acc"] = accDest(&d)
@@ -325,6 +333,7 @@ func init() {
 				verr := pk.Validate()
 				b.hasValid, b.validOK, b.validErr = true, verr == nil, errStr(verr)
 				ser, serr := pk.KeysAndCert.Bytes()
+				b.val = pk
 				b.ser, b.serOK = ser, serr == nil
 				extra["acc"] = accKAC(&pk.KeysAndCert)
 				extra["privs"] = pk.PrivateKey() != nil && pk.SigningPrivateKey() != nil
@@ -334,7 +343,7 @@ func init() {
 			c := certificate.NewCertificate()
 			b := built{ok: c != nil, reader: "ReadCertificate"}
 			if b.ok {
-				b.ser, b.serOK = c.Bytes(), true
+				b.ser, b.serOK, b.val = c.Bytes(), true, c
 			}
 			return b.res(nil)
 		case "NewRouterAddress":
@@ -345,7 +354,7 @@ func init() {
 			if b.ok {
 				verr := ra.Validate()
 				b.hasValid, b.validOK, b.validErr = true, verr == nil, errStr(verr)
-				b.ser, b.serOK = ra.Bytes(), true
+				b.ser, b.serOK, b.val = ra.Bytes(), true, ra
 				extra["acc"] = accRouterAddress(ra)
 			}
 			return b.res(extra)
@@ -361,7 +370,7 @@ func init() {
 				if b.ok {
 					verr := l.Validate()
 					b.hasValid, b.validOK, b.validErr = true, verr == nil, errStr(verr)
-					b.ser, b.serOK = l.Bytes(), true
+					b.ser, b.serOK, b.val = l.Bytes(), true, l
 					extra["acc"] = accLease(*l)
 				}
 				return b.res(extra)
@@ -372,7 +381,7 @@ func init() {
 			if b.ok {
 				verr := l.Validate()
 				b.hasValid, b.validOK, b.validErr = true, verr == nil, errStr(verr)
-				b.ser, b.serOK = l.Bytes(), true
+				b.ser, b.serOK, b.val = l.Bytes(), true, l
 				extra["acc"] = accLease2(*l)
 			}
 			return b.res(extra)
@@ -383,7 +392,7 @@ func init() {
 			if b.ok {
 				verr := o.ValidateStructure()
 				b.hasValid, b.validOK, b.validErr = true, verr == nil, errStr(verr)
-				b.ser, b.serOK = o.Bytes(), true
+				b.ser, b.serOK, b.val = o.Bytes(), true, o
 				extra["acc"] = accOffline(&o)
 			}
 			return b.res(extra)
@@ -440,6 +449,7 @@ func init() {
 				verr := ls.Validate()
 				b.hasValid, b.validOK, b.validErr = true, verr == nil, errStr(verr)
 				ser, serr := ls.Bytes()
+				b.val = ls
 				b.ser, b.serOK = ser, serr == nil
 			}
 			return b.res(nil)
